@@ -182,19 +182,38 @@ theorem stepPairs_run (mode : Index) (qs : List Desc) : ∀ (ops h : List Op),
     rw [hst]
     exact ih (o :: h)
 
+theorem wf_ops (i : Input) (hwf : wf i = true) : (i.ops.map (·.id)).Nodup := by
+  simp only [wf, Bool.and_eq_true, decide_eq_true_eq] at hwf; exact hwf.1
+
+theorem wf_race (i : Input) (hwf : wf i = true) : (i.race.map (·.id)).Nodup := by
+  simp only [wf, Bool.and_eq_true, decide_eq_true_eq] at hwf; exact hwf.2
+
+theorem runSteps_final_init (mode : Index) (qs : List Desc) (ops : List Op) :
+    (runSteps mode qs {} ops).2 = stateOf ops.reverse := by
+  have := runSteps_final mode qs ops []
+  simpa [stateOf] using this
+
+theorem runSteps_oks (mode : Index) (qs : List Desc) : ∀ (ops h : List Op),
+    (runSteps mode qs (stateOf h) ops).1.map (·.ok) = expectOks h ops := by
+  intro ops
+  induction ops with
+  | nil => intro h; simp [runSteps, expectOks]
+  | cons o rest ih =>
+    intro h
+    have hst : (step (stateOf h) o).1 = stateOf (o :: h) := rfl
+    simp only [runSteps, expectOks, List.map_cons, step_ok]
+    rw [hst, ih (o :: h)]
+
 theorem views_run (i : Input) (hwf : wf i = true) : ∀ v ∈ views i (run i), Good v := by
-  have hn : (i.ops.map (·.id)).Nodup := by simpa [wf] using hwf
+  have hn : (i.ops.map (·.id)).Nodup := wf_ops i hwf
   have hn' : ((i.ops.reverse ++ ([] : List Op)).map (·.id)).Nodup := by
     simp only [List.append_nil, List.map_reverse]
     exact nodup_reverse_of hn
   intro v hv
   simp only [views, run, List.mem_append] at hv
-  rcases hv with hv | hv
+  rcases hv with (hv | hv) | hv
   · exact stepViews_run i.mode i.queries i.ops [] hn' v hv
-  · have hfin := runSteps_final i.mode i.queries i.ops []
-    simp only [List.append_nil] at hfin
-    have hst : stateOf ([] : List Op) = ({} : State) := rfl
-    rw [hst] at hfin
+  · have hfin := runSteps_final_init i.mode i.queries i.ops
     by_cases hr : i.reopenOk = true
     · simp only [hr, if_true] at hv
       obtain ⟨q, _, hq⟩ := mem_zipWith_map _ _ v i.queries hv
@@ -202,6 +221,11 @@ theorem views_run (i : Input) (hwf : wf i = true) : ∀ v ∈ views i (run i), G
       refine ⟨by simp [hfin], ?_⟩
       simpa using hn'
     · simp [hr] at hv
+  · simp only [List.mem_singleton] at hv
+    subst hv
+    refine ⟨by simp [runSteps_final_init], ?_⟩
+    simp only [List.map_reverse]
+    exact nodup_reverse_of (wf_race i hwf)
 
 /-! ### what a good view satisfies: the readable theorems, for every history -/
 
@@ -398,6 +422,90 @@ theorem blob_read_implies_single_small_layer (st : State) (ls : List Layer)
     · omega
   · simp [refuse] at hread
 
+/-! ### concurrent pushes and done contexts -/
+
+theorem stored_mem (h : List Op) (b : Nat) (hs : stored h b = true) : ∃ o ∈ h, o.blob = b := by
+  simp only [stored, List.any_eq_true, Bool.and_eq_true, beq_iff_eq] at hs
+  obtain ⟨o, ho, _, hb⟩ := hs
+  exact ⟨o, ho, hb⟩
+
+/-- pushes of pairwise distinct envelopes, in whatever order they take effect: the signatures listed
+for `q` afterwards are exactly the pushes whose subject is `q` - none is lost, the order does not
+matter (the right-hand side does not mention it). This is what the concurrency stage is held to. -/
+theorem distinct_pushes_all_listed (q : Desc) (o : Op) : ∀ (h : List Op), (∀ x ∈ h, x.kind = .push) →
+    (h.map (·.blob)).Nodup → (o ∈ sigsFor q h ↔ o ∈ h ∧ o.subject = some q) := by
+  intro h
+  induction h with
+  | nil => intro _ _; simp [sigsFor]
+  | cons x h ih =>
+    intro hk hn
+    simp only [List.map_cons, List.nodup_cons] at hn
+    have hns : stored h x.blob = false := by
+      cases hs : stored h x.blob with
+      | false => rfl
+      | true =>
+        obtain ⟨y, hy, hb⟩ := stored_mem h x.blob hs
+        exact absurd (List.mem_map.2 ⟨y, hy, hb⟩) hn.1
+    have hsig : isSigFor h x q = (x.subject == some q) := by
+      simp [isSigFor, hk x List.mem_cons_self, hns]
+    simp only [sigsFor, List.mem_append, ih (fun y hy => hk y (List.mem_cons_of_mem _ hy)) hn.2, hsig,
+      List.mem_cons]
+    by_cases hx : (x.subject == some q) = true
+    · have hx' : x.subject = some q := by simpa using hx
+      simp only [hx, if_true, List.mem_singleton]
+      constructor
+      · rintro (⟨h1, h2⟩ | h1)
+        · exact ⟨Or.inr h1, h2⟩
+        · exact ⟨Or.inl h1, by rw [h1]; exact hx'⟩
+      · rintro ⟨h1 | h1, h2⟩
+        · exact Or.inr h1
+        · exact Or.inl ⟨h1, h2⟩
+    · have hx' : ¬ x.subject = some q := by simpa using hx
+      have hxf : (x.subject == some q) = false := by simpa using hx
+      simp only [hxf, Bool.false_eq_true, if_false, List.not_mem_nil, or_false]
+      constructor
+      · rintro ⟨h1, h2⟩; exact ⟨Or.inr h1, h2⟩
+      · rintro ⟨h1 | h1, h2⟩
+        · rw [h1] at h2; exact absurd h2 hx'
+        · exact ⟨h1, h2⟩
+
+/-- ... and every one of them is accepted -/
+theorem distinct_pushes_all_accepted : ∀ (ops h : List Op), (∀ x ∈ ops, x.kind = .push) →
+    ((ops.reverse ++ h).map (·.blob)).Nodup → (∀ x ∈ h, writesBlob x = true) →
+    (expectOks h ops).all id = true := by
+  intro ops
+  induction ops with
+  | nil => intro h _ _ _; rfl
+  | cons o rest ih =>
+    intro h hk hn hw
+    have hn' : ((rest.reverse ++ (o :: h)).map (·.blob)).Nodup := by
+      simpa [List.reverse_cons, List.append_assoc] using hn
+    have hoh : ((o :: h).map (·.blob)).Nodup := by
+      rw [List.map_append] at hn'
+      exact (List.nodup_append.1 hn').2.1
+    simp only [List.map_cons, List.nodup_cons] at hoh
+    have hns : stored h o.blob = false := by
+      cases hs : stored h o.blob with
+      | false => rfl
+      | true =>
+        obtain ⟨y, hy, hb⟩ := stored_mem h o.blob hs
+        exact absurd (List.mem_map.2 ⟨y, hy, hb⟩) hoh.1
+    have hko := hk o List.mem_cons_self
+    simp only [expectOks, List.all_cons, id, succeeds, hko, hns, Bool.not_false, Bool.true_and]
+    refine ih (o :: h) (fun x hx => hk x (List.mem_cons_of_mem _ hx)) hn' ?_
+    intro x hx
+    rcases List.mem_cons.1 hx with hx | hx
+    · rw [hx]; simp [writesBlob, hko]
+    · exact hw x hx
+
+/-- a listing under a done context is the listing under a live one (the store ignores the
+context, `signatureReferrers` does not look at it): complete, or the same refusal -/
+theorem cancelled_listing_complete (mode : Index) (h : List Op) (q : Desc) :
+    (ctxObs mode (stateOf h) q).err = true ∨ (ctxObs mode (stateOf h) q).ids = (sigsFor q h).map (·.id) := by
+  by_cases hok : (listObs mode (stateOf h) q).ok = true
+  · right; simp [ctxObs, list_exact mode h q hok]
+  · left; simp [ctxObs, hok]
+
 /-- in the model results are values: nothing a later call (on this or another repository) does
 can change what an earlier call returned, and no two results share anything. The harness checks
 the real code against exactly this: it keeps every returned envelope slice, blob descriptor,
@@ -431,12 +539,11 @@ theorem probeTarget_spec (d : Desc) : ∀ (h : List Op) (o : Op), probeTarget h 
 every well-formed input (any number of operations, subjects, queries and probes). -/
 theorem model_holds (i : Input) (hwf : wf i = true) : Holds i (run i) = true := by
   have hgood := views_run i hwf
-  have hn : (i.ops.map (·.id)).Nodup := by simpa [wf] using hwf
+  have hn : (i.ops.map (·.id)).Nodup := wf_ops i hwf
   have hnr : (i.ops.reverse.map (·.id)).Nodup := by
     rw [List.map_reverse]; exact nodup_reverse_of hn
-  have hfin : (runSteps i.mode i.queries {} i.ops).2 = stateOf i.ops.reverse := by
-    have := runSteps_final i.mode i.queries i.ops []
-    simpa [stateOf] using this
+  have hfin : (runSteps i.mode i.queries {} i.ops).2 = stateOf i.ops.reverse :=
+    runSteps_final_init i.mode i.queries i.ops
   -- per-view facts
   have hview : ∀ (f : View → Bool),
       (∀ mode h q, (h.map (·.id)).Nodup → f ⟨mode, h, q, listObs mode (stateOf h) q⟩ = true) →
@@ -459,7 +566,7 @@ theorem model_holds (i : Input) (hwf : wf i = true) : Holds i (run i) = true := 
     exact all_zip_map _ P _
   unfold Holds clauses
   simp only [Clauses.holds_cons, Clauses.holds_nil, Bool.and_true, Bool.and_eq_true]
-  refine ⟨hwf, ?shape, ?push, ?exact, ?iso, ?refused, ?big, ?round, ?pushed, ?annos, ?hostile, ?probe1, ?probe2, ?reopen, ?retained, ?unaliased⟩
+  refine ⟨hwf, ?shape, ?push, ?exact, ?iso, ?refused, ?big, ?round, ?pushed, ?annos, ?hostile, ?probe1, ?probe2, ?reopen, ?race, ?ctx, ?retained, ?unaliased⟩
   case shape =>
     simp only [shapeOk, run, runSteps_length, runSteps_lists, List.length_map, beq_self_eq_true, Bool.true_and,
       Bool.and_true]
@@ -595,6 +702,17 @@ theorem model_holds (i : Input) (hwf : wf i = true) : Holds i (run i) = true := 
         simp [this]
     · simp [hd]
   case reopen => rfl
+  case race =>
+    have := runSteps_oks .exact [] i.race []
+    simp only [run, beq_iff_eq]
+    simpa [stateOf] using this
+  case ctx =>
+    simp only [run, all_zip_map, hfin]
+    apply List.all_eq_true.2
+    intro q _
+    by_cases hok : (listObs i.mode (stateOf i.ops.reverse) q).ok = true
+    · simp [ctxObs, hok, list_exact i.mode _ q hok]
+    · simp [ctxObs, hok]
   case retained => rfl
   case unaliased => rfl
 
@@ -613,14 +731,17 @@ def rawOp (id : Nat) (mt : String) (s : Desc) (atype : String) (layers : List La
     topType := "", layers := layers, annos := [] }
 
 /-- two subjects; a signature each; a notation manifest for a subject that shares only the digest
-with `s0`; another artifact type on `s0`; a hostile two-layer signature manifest on `s0` -/
+with `s0`; another artifact type on `s0`; a hostile two-layer signature manifest on `s0`; a look-alike
+artifact type (letter case) on `s1`; two concurrent first pushes; listings under done contexts -/
 def demo : Input :=
   { mode := .digestOnly,
     ops := [pushOp 0 s0 1, pushOp 1 s1 2,
             rawOp 2 mtImage s0' notationType [⟨"application/cose", 1, 100⟩],
             rawOp 3 mtArtifact s0 "application/vnd.example.sbom" [⟨"application/cose", 2, 100⟩],
-            rawOp 4 mtArtifact s0 notationType [⟨"application/cose", 1, 100⟩, ⟨"application/cose", 2, 100⟩]],
-    queries := [s0, s1], probes := [⟨mtImage, 0, 600⟩, ⟨mtImage, 0, capM + 1⟩], reopenOk := true }
+            rawOp 4 mtArtifact s0 notationType [⟨"application/cose", 1, 100⟩, ⟨"application/cose", 2, 100⟩],
+            rawOp 5 mtImage s1 "application/vnd.cncf.notary.Signature" [⟨"application/cose", 1, 100⟩]],
+    queries := [s0, s1], probes := [⟨mtImage, 0, 600⟩, ⟨mtImage, 0, capM + 1⟩], reopenOk := true,
+    race := [pushOp 0 s0 1, pushOp 1 s0 2], raceSubject := s0, cuts := [0, 1] }
 
 example : wf demo = true := by decide
 
@@ -637,11 +758,24 @@ example : (run demo).reopened =
 
 example : (run demo).probes = [⟨true, 1, "application/jose+json", true, true⟩, ⟨false, 0, "", false, false⟩] := by decide
 
+/-- both concurrent pushes are accepted and listed; every cancelled listing is the complete one -/
+example : (run demo).raceOks = [true, true] ∧ (run demo).raceList.sigs.map (·.id) = [0, 1] ∧
+    (run demo).cancelled = [⟨false, [0, 4]⟩, ⟨false, [0, 4]⟩, ⟨false, [1]⟩, ⟨false, [1]⟩] := by decide
+
 example : Holds demo (run demo) = true := by decide
 
 /-- an oversized referrer refuses the listing of its subject only -/
-example : ((run { demo with ops := demo.ops ++ [rawOp 5 mtImage s0 "x/y" [] (capM + 1)] }).reopened.map (·.ok)) =
+example : ((run { demo with ops := demo.ops ++ [rawOp 6 mtImage s0 "x/y" [] (capM + 1)] }).reopened.map (·.ok)) =
     [false, true] := by decide
+
+/-- wrong observations are rejected: the loser of the race not stored; a silently truncated
+listing under a cancelled context; the look-alike artifact type listed -/
+example : Holds demo { run demo with raceOks := [true, false] } = false := by decide
+example : Holds demo { run demo with raceList := { (run demo).raceList with sigs := (run demo).raceList.sigs.take 1 } } = false := by decide
+example : Holds demo { run demo with cancelled := [⟨false, [0]⟩, ⟨false, [0, 4]⟩, ⟨false, [1]⟩, ⟨false, [1]⟩] } = false := by decide
+example : Holds demo { run demo with cancelled := [⟨true, []⟩, ⟨false, [0, 4]⟩, ⟨false, [1]⟩, ⟨true, []⟩] } = true := by decide
+example : Holds demo { run demo with reopened := (run demo).reopened.map (fun l =>
+    { l with sigs := l.sigs ++ [{ id := 5, annos := [], fetch := ⟨true, 1, "application/cose", true, true⟩ }] }) } = false := by decide
 
 def goodSig0 : SigObs :=
   { id := 0, annos := [⟨"a", "1"⟩, ⟨createdKey, timeMark⟩], fetch := ⟨true, 1, "application/jose+json", true, true⟩ }
@@ -651,28 +785,26 @@ def stepOf (sigs : List SigObs) : StepObs := { ok := true, lists := [okList sigs
 def demo2 : Input :=
   { mode := .digestOnly,
     ops := [pushOp 0 s0 1, rawOp 1 mtImage s0' notationType [⟨"application/cose", 1, 100⟩]],
-    queries := [s0], probes := [], reopenOk := false }
+    queries := [s0], probes := [], reopenOk := false, race := [], raceSubject := s0, cuts := [] }
 
-example : run demo2 =
-    { steps := [stepOf [goodSig0], stepOf [goodSig0]], probes := [], reopened := [], reopenSame := true, retained := true, unaliased := true } := by decide
+def obs2 (steps : List StepObs) : Obs :=
+  { steps := steps, probes := [], reopened := [], reopenSame := true, raceOks := [], raceList := okList [],
+    cancelled := [], retained := true, unaliased := true }
+
+example : run demo2 = obs2 [stepOf [goodSig0], stepOf [goodSig0]] := by decide
 
 /-- a wrong observation is rejected: the manifest whose subject only shares the digest listed for `s0` -/
-example : Holds demo2
-    { steps := [stepOf [goodSig0], stepOf [goodSig0, { id := 1, annos := [], fetch := ⟨true, 1, "application/cose", true, true⟩ }]],
-      probes := [], reopened := [], reopenSame := true, retained := true, unaliased := true } = false := by decide
+example : Holds demo2 (obs2 [stepOf [goodSig0],
+    stepOf [goodSig0, { id := 1, annos := [], fetch := ⟨true, 1, "application/cose", true, true⟩ }]]) = false := by decide
 
 /-- and so is a fetch that returns other bytes than were pushed -/
-example : Holds demo2
-    { steps := [stepOf [{ goodSig0 with fetch := ⟨true, 7, "application/jose+json", true, true⟩ }], stepOf [goodSig0]],
-      probes := [], reopened := [], reopenSame := true, retained := true, unaliased := true } = false := by decide
+example : Holds demo2 (obs2 [stepOf [{ goodSig0 with fetch := ⟨true, 7, "application/jose+json", true, true⟩ }],
+    stepOf [goodSig0]]) = false := by decide
 
 /-- and an earlier fetch result that a later fetch overwrote (pooled buffer) -/
-example : Holds demo2
-    { steps := [stepOf [goodSig0], stepOf [goodSig0]], probes := [], reopened := [], reopenSame := true,
-      retained := false, unaliased := true } = false := by decide
+example : Holds demo2 { obs2 [stepOf [goodSig0], stepOf [goodSig0]] with retained := false } = false := by decide
 
 /-- and a listing that misses a pushed signature -/
-example : Holds demo2
-    { steps := [stepOf [goodSig0], stepOf []], probes := [], reopened := [], reopenSame := true, retained := true, unaliased := true } = false := by decide
+example : Holds demo2 (obs2 [stepOf [goodSig0], stepOf []]) = false := by decide
 
 end NotationModel.C19
